@@ -1,6 +1,6 @@
 (* xgi/generators/simple.py::sunflower (C16): l petals of m nodes sharing a core of c nodes. *)
 From Coq Require Import List Arith Lia Bool.
-From XV Require Import Model.Decoders.
+From XV Require Import Base.Label Base.LSet Model.Decoders.
 Import ListNotations.
 
 Definition sunflower_edges (l c m : nat) : list (list nat) :=
@@ -8,3 +8,23 @@ Definition sunflower_edges (l c m : nat) : list (list nat) :=
 
 Definition sunflower_bad (cases : list (nat * nat * nat * list (list nat))) :=
   bad_index (fun '(l, c, m, obs) => lists_eqb (sunflower_edges l c m) obs) cases O.
+
+(* star_clique(n_star, n_clique, d_max): a star on nodes 0..n_star-1 centred at 0, one link from the centre to the
+   first clique node, and every subset of 2..d_max+1 clique nodes *)
+Definition star_clique_edges (ns nc dmax : nat) : list (list nat) :=
+  map (fun i => [0; i]) (seq 1 (ns - 1)) ++ [[0; ns]] ++
+  flat_map (fun d => combs (seq ns nc) (d + 1)) (seq 1 dmax).
+Definition star_clique_bad (cases : list (nat * nat * nat * list (list nat))) :=
+  bad_index (fun '(ns, nc, dmax, obs) => lists_eqb (star_clique_edges ns nc dmax) obs) cases O.
+
+(* ring_lattice(n, d, k, l): for every node and each of the k/2 next start positions, the node followed by the d-1
+   consecutive nodes from start + l (mod n); given as the member lists the generator builds (an edge is their set) *)
+Definition ring_lattice_edges (n d k l : nat) : list (list nat) :=
+  flat_map (fun node => map (fun start => node :: map (fun i => (start + l + i) mod n) (seq 0 (d - 1)))
+                            (seq (node + 1) (k / 2))) (seq 0 n).
+Definition nat_set_eqb (a b : list nat) : bool :=
+  forallb (fun x => existsb (Nat.eqb x) b) a && forallb (fun x => existsb (Nat.eqb x) a) b.
+Fixpoint sets_eqb (a b : list (list nat)) : bool :=
+  match a, b with [], [] => true | x :: a', y :: b' => nat_set_eqb x y && sets_eqb a' b' | _, _ => false end.
+Definition ring_lattice_bad (cases : list (nat * nat * nat * nat * list (list nat))) :=
+  bad_index (fun '(n, d, k, l, obs) => sets_eqb (ring_lattice_edges n d k l) obs) cases O.
